@@ -39,7 +39,7 @@ theorem wly_idx (a H M S iH iM iS : Nat) :
   rw [Nat.add_mul, Nat.add_mul, Nat.add_mul, Nat.mul_assoc, Nat.mul_assoc, Nat.mul_assoc, Nat.add_assoc, Nat.add_assoc]
 
 /-- the week loop's BYSETPOS test is `SetposOk` -/
-theorem wlySkip_iff (r : Rule) (p : Inst) (nti : Nat) (hr : WfRule r) (hp : WfInst p) (hs : SeedOk r p)
+theorem wlySkip_iff (r : Rule) (p : Inst) (nti : Nat) (hr : WfRule r) (hp : WfInst p)
     (hy2 : p.y ≤ 2099) (hf : r.freq = 3) (hpos : r.pos ≠ []) {y0 m0 d0 : Nat} (hv0 : VD y0 m0 d0) (hl0 : LowOk y0 m0)
     (hy0 : y0 ≤ 2099) (hback : Carry y0 m0 (d0 + wlyBack r p) p.y p.m p.d) (j y m d : Nat)
     (hcw : Carry y0 m0 (d0 + j * wk (wctx r p nti)) y m d)
@@ -86,9 +86,9 @@ theorem wlySkip_iff (r : Rule) (p : Inst) (nti : Nat) (hr : WfRule r) (hp : WfIn
         weekStart (dayOf p) + 7 * (j : Int) * (r.inter : Int) := hxw
     rw [hxw']
     constructor
-    · intro hu; exact weekL_sound r p nti hr hp hs hy2 hv0 hl0 hback j y m d hcw hwk u hu
-    · rintro ⟨a, b⟩; exact weekL_complete r p nti hr hp hs hy2 hv0 hl0 hy0 hback j y m d hcw hwk u a b
-  have key := setpos_iff r p _ hpos _ (weekL_sorted r p nti hr hp hs hv hl hwk) _ hidx hchar
+    · intro hu; exact weekL_sound r p nti hr hp hy2 hv0 hl0 hback j y m d hcw hwk u hu
+    · rintro ⟨a, b⟩; exact weekL_complete r p nti hr hp hy2 hv0 hl0 hy0 hback j y m d hcw hwk u a b
+  have key := setpos_iff r p _ hpos _ (weekL_sorted r p nti hr hp hv hl hwk) _ hidx hchar
   rw [key]
   have hlen : (weekL r p nti y m d).length = wlyNset (wctx r p nti) m d (getNdom y m) := by
     rw [wlyNset_eq r p nti hpos hv]
